@@ -20,8 +20,9 @@ def main(argv):
                "measured subset, random psi0); non-trivial = at least one two-qubit gate or >= 2 measured qubits; distinct = distinct (class, labels, instructions)")
     ck.trusted = ["Coq 8.16.1 kernel + vm_compute", "coq/Sym (sound reflective normaliser)", "tracers (gates_trace, circuit_trace)",
                   "Qiskit's Statevector / gate conventions (oracle side only)",
-                  "the composition 'traced hand-off + frame identities => the run is a framed program in the sense of FrameSim' is checked per traced method by reflection "
-                  "(C03_handoff_frames); its lifting to whole runs through the builder state machines (C11) and backends (C01, C02) is validated by the correspondence and the oracle",
+                  "whole noise-free runs: index class proved end to end from the builder model through the backend theorem (C03_builder_backend_run, C03_noise_free_born_*); "
+                  "layered classes from the stored layers on (C03_layered_builder_full is stated, not proved); the simulator loop from Qiskit instructions to method calls "
+                  "(layout, delay, barrier, measure, shots) is covered by the hand-off theorems of C08 plus the exact call-sequence correspondence and the oracle",
                   "floating-point rounding outside the model"]
     rng = np.random.default_rng(ck.seed)
 
